@@ -419,6 +419,9 @@ type C15FSOp struct {
 
 type C15FSCase struct {
 	Ops []C15FSOp `json:"ops"`
+	// Compiled: the loader is a CompiledLoader over one directory of .twig.compiled files
+	// instead of a FileSystemLoader over two search paths
+	Compiled bool `json:"compiled,omitempty"`
 }
 
 // names that differ only after the last dot, in the directory part, or by one character
@@ -441,7 +444,21 @@ func runC15FS(c C15FSCase) (bool, error) {
 		os.MkdirAll(d, 0o755)
 	}
 	e := twig.New()
-	e.RegisterLoader(twig.NewFileSystemLoader(roots))
+	if c.Compiled {
+		e.RegisterLoader(twig.NewCompiledLoader(roots[0]))
+	} else {
+		e.RegisterLoader(twig.NewFileSystemLoader(roots))
+	}
+	writeFile := func(path, name, content string) error {
+		if !c.Compiled {
+			return os.WriteFile(path, []byte(content), 0o644)
+		}
+		data, err := twig.SerializeCompiledTemplate(&twig.CompiledTemplate{Name: name, Source: content, LastModified: 1, CompileTime: 2})
+		if err != nil {
+			return err
+		}
+		return os.WriteFile(path, data, 0o644)
+	}
 	type ent struct {
 		version int
 		ts      int64
@@ -482,6 +499,10 @@ func runC15FS(c C15FSCase) (bool, error) {
 		name := c15FSNames[op.Name%len(c15FSNames)]
 		rt := op.Root % 2
 		path := filepath.Join(roots[rt], name+".twig")
+		if c.Compiled {
+			rt = 0
+			path = filepath.Join(roots[0], name+".twig.compiled")
+		}
 		switch op.Op {
 		case "cache":
 			e.SetCache(op.On)
@@ -493,11 +514,22 @@ func runC15FS(c C15FSCase) (bool, error) {
 			version++
 			clock += 10
 			os.MkdirAll(filepath.Dir(path), 0o755)
-			if err := os.WriteFile(path, []byte(fmt.Sprintf("v%d", version)), 0o644); err != nil {
+			if err := writeFile(path, name, fmt.Sprintf("v%d", version)); err != nil {
 				return false, fmt.Errorf("harness: %v", err)
 			}
 			os.Chtimes(path, time.Unix(clock, 0), time.Unix(clock, 0))
 			files[rt][name] = ent{version, clock, rt}
+		case "rewrite":
+			// new content, old modification time (a change the timestamp does not show)
+			if it, ok := files[rt][name]; ok {
+				version++
+				if err := writeFile(path, name, fmt.Sprintf("v%d", version)); err != nil {
+					return false, fmt.Errorf("harness: %v", err)
+				}
+				os.Chtimes(path, time.Unix(it.ts, 0), time.Unix(it.ts, 0))
+				it.version = version
+				files[rt][name] = it
+			}
 		case "touch":
 			if it, ok := files[rt][name]; ok {
 				clock += 10
@@ -522,10 +554,13 @@ func runC15FS(c C15FSCase) (bool, error) {
 				admissible[cached.version] = true
 			default:
 				origin, still := files[cached.root][name]
-				if still && origin.version == cached.version && origin.ts <= cached.ts {
-					// the file the cached copy came from is unchanged; an earlier search path may
-					// have gained the name meanwhile: the statement is silent on which clause wins
+				if still && origin.ts <= cached.ts {
+					// the file the cached copy came from is unchanged as far as its timestamp tells
+					// (a rewrite that kept the timestamp may or may not be noticed); an earlier
+					// search path may have gained the name meanwhile: the statement is silent on
+					// which clause wins
 					admissible[cached.version] = true
+					admissible[origin.version] = true
 					if has && cur.root < cached.root {
 						admissible[cur.version] = true
 					}
@@ -591,7 +626,7 @@ func runC15FS(c C15FSCase) (bool, error) {
 }
 
 func TestC15Files(t *testing.T) {
-	r := NewRec(t, "C15", "histories of 10-40 operations on an engine with a FileSystemLoader over two search paths in a temp directory: writes (distinct version markers, strictly increasing mtimes set with os.Chtimes), mtime changes without a content change, removals (also of the earlier of two copies), Load/Render, SetCache, SetAutoReload over 8 names that differ only after the last dot, in the directory part or by one character (a, a.b, a.c, mail.html, mail.txt, dir/a, dir/a.b, ab); oracle: the same cache model; non-trivial = at least two files exist when a name is read; distinct by operation list")
+	r := NewRec(t, "C15", "histories of 10-40 operations on an engine with a FileSystemLoader over two search paths in a temp directory: writes (distinct version markers, strictly increasing mtimes set with os.Chtimes), mtime changes without a content change, content changes that keep the mtime, removals (also of the earlier of two copies); one history in four runs against a CompiledLoader over .twig.compiled files instead; Load/Render, SetCache, SetAutoReload over 8 names that differ only after the last dot, in the directory part or by one character (a, a.b, a.c, mail.html, mail.txt, dir/a, dir/a.b, ab); oracle: the same cache model; non-trivial = at least two files exist when a name is read; distinct by operation list")
 	defer r.Flush()
 	rapid.Check(t, func(rt *rapid.T) {
 		n := rapid.IntRange(10, 40).Draw(rt, "nops")
@@ -611,7 +646,9 @@ func TestC15Files(t *testing.T) {
 			if rapid.IntRange(0, 2).Draw(rt, "fewnames") == 0 {
 				op.Name = op.Name % 2 // concentrate on two names so that both search paths hold the same name
 			}
-			switch k := rapid.IntRange(0, 12).Draw(rt, "kind"); {
+			switch k := rapid.IntRange(0, 13).Draw(rt, "kind"); {
+			case k == 13:
+				op.Op = "rewrite"
 			case k == 12:
 				op.Op = "touch"
 			case k <= 3:
@@ -629,6 +666,7 @@ func TestC15Files(t *testing.T) {
 			}
 			c.Ops = append(c.Ops, op)
 		}
+		c.Compiled = rapid.IntRange(0, 3).Draw(rt, "compiledloader") == 0
 		nt, err := runC15FS(c)
 		r.Case(fmt.Sprint(c.Ops), nt, c.Ops[:min(8, len(c.Ops))])
 		if err != nil {
